@@ -902,13 +902,18 @@ pub(super) fn translate_ident_part(ident: String, ctx: &Context) -> sql_ast::Ide
             if is_bare && !keywords::is_keyword(&ident, &ctx.dialect_enum) {
                 sql_ast::Ident::new(ident)
             } else {
-                sql_ast::Ident::with_quote(ctx.dialect.ident_quote(), ident)
+                quoted_ident(ctx.dialect.ident_quote(), ident)
             }
         }
-        IdentQuotingStyle::AlwaysQuoted => {
-            sql_ast::Ident::with_quote(ctx.dialect.ident_quote(), ident)
-        }
+        IdentQuotingStyle::AlwaysQuoted => quoted_ident(ctx.dialect.ident_quote(), ident),
     }
+}
+
+/// sqlparser leaves a quote char that is followed by another one as it is
+/// (it assumes it is escaped already), so we double the quote chars ourselves.
+fn quoted_ident(quote: char, ident: String) -> sql_ast::Ident {
+    let doubled = format!("{quote}{quote}");
+    sql_ast::Ident::with_quote(quote, ident.replace(quote, &doubled))
 }
 
 pub(super) fn translate_operand(
